@@ -38,6 +38,22 @@ type Plan struct {
 	// LoudObs: oracle observations (reading all metrics, well-formedness)
 	// run as ordinary, preemptible caller code instead of unscheduled.
 	LoudObs bool `json:"loud_obs,omitempty"`
+	// SharedErrs: error values obtained before the tasks start (by the calls
+	// described here) and then used by ALL tasks (Error(), comparison), as a
+	// logger or a supervisor goroutine would.
+	SharedErrs []ErrSpec `json:"shared_errs,omitempty"`
+	// AliasArgs: string arguments are, where possible, substrings of strings
+	// the library itself returned earlier to this task (same content, other
+	// storage): results must not depend on where the bytes of an argument live.
+	AliasArgs bool `json:"alias_args,omitempty"`
+}
+
+// ErrSpec describes a failing call whose error value is shared.
+type ErrSpec struct {
+	Ver int    `json:"ver"`
+	K   string `json:"k"` // "get" | "set" | "parse"
+	S   string `json:"s,omitempty"`
+	S2  string `json:"s2,omitempty"`
 }
 
 // Cell sharing modes.
